@@ -1497,6 +1497,22 @@ func (sc *serverConn) sendData(strm *Stream) bool {
 			}
 
 			if len(strm.pendingData) == 0 {
+				// The reader ended without handing over another byte, which is
+				// how most readers end: (0, io.EOF). There is no chunk left to
+				// carry END_STREAM, and without it the peer waits for ever. An
+				// empty DATA frame closes the stream and costs no window.
+				if strm.pendingEnd {
+					fr := AcquireFrameHeader()
+					fr.SetStream(strm.ID())
+
+					data := AcquireFrame(FrameData).(*Data)
+					data.SetEndStream(true)
+
+					fr.SetBody(data)
+
+					sc.write(fr)
+				}
+
 				break
 			}
 		}
